@@ -220,8 +220,9 @@ def run_batch(prop, tier, seed, workers=None, wall_cap=None, want_log=False, pla
                             truncated = True
                             pending = []
                             break
-                        f = ex.submit(_worker, prop, pending.pop(0), set(known), want_log)
-                        inflight[f] = 1
+                        ch_ = pending.pop(0)
+                        f = ex.submit(_worker, prop, ch_, set(known), want_log)
+                        inflight[f] = ch_
                     if not inflight:
                         break
                     done = next(as_completed(list(inflight), timeout=1200))
@@ -233,6 +234,7 @@ def run_batch(prop, tier, seed, workers=None, wall_cap=None, want_log=False, pla
                         pending = []
             except Exception:
                 harness = 'worker died or hung:\n' + traceback.format_exc()
+                agg['suspect_chunks'] = [c for c in inflight.values() if isinstance(c, list)]
                 for f in inflight:
                     f.cancel()
     agg['wall'] = time.time() - t0
@@ -342,6 +344,52 @@ def write_evidence(prop, tier, seed, agg, violations, extra=None):
     return path, weak
 
 
+def _runs_in_child(prop, descs, timeout=600):
+    """Execute the given runs, in order, in a child interpreter.  Returns its exit status (negative: killed by that signal)."""
+    import tempfile
+    with tempfile.NamedTemporaryFile('w', suffix='.json', delete=False) as f:
+        json.dump(descs, f)
+        path = f.name
+    try:
+        p = subprocess.run([sys.executable, '-X', 'faulthandler', os.path.join(VERIF, 'check.py'), prop, '--descs', path], capture_output=True, text=True,
+                           timeout=timeout, cwd=VERIF)
+        return p.returncode, (p.stderr or '')[-1500:]
+    except subprocess.TimeoutExpired:
+        return 0, 'timeout'
+    finally:
+        os.unlink(path)
+
+
+def locate_crash(prop, chunks, budget=40):
+    """A worker process was terminated abruptly.  Find the run that kills the interpreter: each suspect chunk is re-executed in a
+    child process; inside the first one that dies, the shortest prefix of runs that still dies (the runs before the last one may have
+    prepared the ground).  Returns (history of runs, stderr tail) or None."""
+    calls = 0
+    for ch in chunks:
+        if calls >= budget:
+            break
+        rc, err = _runs_in_child(prop, ch)
+        calls += 1
+        if rc >= 0 or rc == -9:
+            continue
+        lo, hi = 1, len(ch)               # smallest k such that ch[:k] dies
+        last_err = err
+        while lo < hi and calls < budget:
+            mid = (lo + hi) // 2
+            rc2, err2 = _runs_in_child(prop, ch[:mid])
+            calls += 1
+            if rc2 < 0 and rc2 != -9:
+                hi, last_err = mid, err2
+            else:
+                lo = mid + 1
+        hist = ch[:hi]
+        rc3, err3 = _runs_in_child(prop, hist[-1:])
+        if rc3 < 0 and rc3 != -9:
+            hist, last_err = hist[-1:], err3
+        return hist, last_err
+    return None
+
+
 TIER_WALL_CAP = {'quick': 60, 'thorough': 1500}
 
 
@@ -353,6 +401,20 @@ def check(prop, tier, seed, workers=None, runs=None):
     agg = run_batch(prop, tier, seed, workers=workers, wall_cap=TIER_WALL_CAP[tier], plan_override=plan)
     print(f'{prop} {agg["engine"].name} tier={tier} seed={seed} runs={agg["runs"]}/{agg["planned"]} events={agg["events"]} '
           f'wall={agg["wall"]:.1f}s distinct_nontrivial={len(agg["nontrivial"])} digest={batch_digest(agg)[:16]}')
+    if agg['harness'] and agg.get('suspect_chunks') and prop == 'C20':
+        # The interpreter itself died inside a worker.  Under C20 ("never an internal error") that is a finding about the code under
+        # test if a child interpreter running the same runs dies the same way; the replay file re-executes those runs.
+        found = locate_crash(prop, agg['suspect_chunks'])
+        if found:
+            hist, err = found
+            inc = {'signature': f'{prop}|crash|interpreter-terminated-abruptly', 'detail': {'runs': len(hist), 'stderr_tail': err[-600:]}}
+            path = write_replay(prop, hist[-1]['seed'], [], inc, False, history=hist)
+            write_evidence(prop, tier, seed, agg, 1, {'harness_error': agg['harness'][:500]})
+            print(f'VIOLATION property={prop} replay={path}')
+            print(f'  signature={inc["signature"]}')
+            print(f'  note=the interpreter dies while executing the recorded run(s); ./check {prop} --replay {path} dies the same way')
+            print(f'  detail={kernel.jdump(inc["detail"])[:1200]}')
+            return 1
     if agg['harness']:
         write_evidence(prop, tier, seed, agg, 0, {'harness_error': agg['harness'][:2000]})
         print('HARNESS ' + agg['harness'])
@@ -446,12 +508,19 @@ def main(argv=None):
     ap.add_argument('--expect')
     ap.add_argument('--save-witness', help='development: store this replay file as the committed witness of its signature')
     ap.add_argument('--digest', action='store_true', help='print the batch digest only (determinism self-test)')
+    ap.add_argument('--descs', help='internal: execute the run descriptors of this JSON file in order, in this process')
     a = ap.parse_args(argv)
     if a.prop not in ENGINES:
         print(f'unknown or not-applicable property {a.prop}')
         return 2
     if a.save_witness:
         print(save_witness(a.prop, a.save_witness))
+        return 0
+    if a.descs:
+        faulthandler.enable()
+        with open(a.descs) as f:
+            for desc in json.load(f):
+                engine_factory(a.prop)().run(desc)
         return 0
     if a.replay:
         r, rec = replay_file(a.prop, a.replay)
